@@ -172,8 +172,8 @@ PROPS = {
     },
     "C17": {
         "props": "TrackVerif.Geo.PropsC17",
-        "streams": [("GE", 6000, 60000)],
-        "clauses": ["ge.online_hit", "ge.online_miss", "ge.endpoint_order", "ge.tol_monotone", "ge.no_crash"],
+        "streams": [("GE", 6000, 60000), ("CL", 60, 600)],
+        "clauses": ["ge.online_hit", "ge.online_miss", "ge.endpoint_order", "ge.tol_monotone", "ge.no_crash", "cl.laptimes"],
         "rule": "PRNG(seed) tuples: line 1 m..1 km (log-uniform) at any bearing, |lat| < 84.9, any longitude, tolerance 1 cm..30 m (log-uniform), radius Earth/Moon/1 km/2x; position before, beside and "
                 "beyond the segment at 0..3 tolerances, one third placed at 0.97/0.985/1.02/1.03 x tolerance (just outside the guard band); each case evaluates OnLine for (a,b), (b,a) and 2x tolerance "
                 "against the independent oracle distance; non-trivial = position within 3 tolerances",
